@@ -1,7 +1,6 @@
 // Replay templates for the accept unit (C09): concrete scenarios against the REAL crate.
 // Compiled inside `crate::server::conn::drivers::verif_replays` (feature verif-hooks, test builds).
 use super::*;
-use crate::server::conn::Accept as _;
 use crate::stream::duplex;
 use std::future::poll_fn;
 
@@ -64,7 +63,9 @@ async fn acc_dead_request_then_pending() {
 async fn acc_listener_lost() {
     let (client, mut incoming) = duplex::pair();
     drop(client);
-    let r = poll_fn(|cx| Pin::new(&mut incoming).poll_accept(cx)).await;
+    let r = tokio::time::timeout(std::time::Duration::from_secs(5), poll_fn(|cx| Pin::new(&mut incoming).poll_accept(cx)))
+        .await
+        .expect("all clients are gone: poll_accept must complete (and report the loss of the listener)");
     assert!(r.is_err(), "all clients are gone: poll_accept must report the loss of the listener");
 }
 
@@ -73,7 +74,11 @@ async fn acc_listener_lost() {
 async fn acc_ok_acked() {
     use tokio::io::{AsyncReadExt, AsyncWriteExt};
     let (client, mut incoming) = duplex::pair();
-    let (c, s) = tokio::join!(client.connect(1024), poll_fn(|cx| Pin::new(&mut incoming).poll_accept(cx)));
+    let (c, s) = tokio::time::timeout(std::time::Duration::from_secs(5), async {
+        tokio::join!(client.connect(1024), poll_fn(|cx| Pin::new(&mut incoming).poll_accept(cx)))
+    })
+    .await
+    .expect("connect/accept pair completes");
     let (mut c, mut s) = (c.unwrap(), s.unwrap());
     c.write_all(b"ping").await.unwrap();
     let mut buf = [0u8; 4];
@@ -104,4 +109,128 @@ fn cd_swallow() {
     let mut d: ConnectionDriver<Script, &'static str> = ConnectionDriver::new(Script(vec![Poll::Ready(Ok(()))], 0));
     assert!(noop_cx_poll(&mut d).is_ready());
     assert_eq!(d.conn.1, 1);
+}
+
+/// unix.err_only_listener (replay only - `impl Accept for UnixListener` is outside Verus' subset): a client whose
+/// own socket is bound to a path that is not UTF-8 connects.  The listener is intact, so `poll_accept` must not
+/// report an error (any `Err` from `poll_accept` ends the serving future).
+#[cfg(all(unix, feature = "client"))]
+#[tokio::test]
+async fn unix_peer_path_not_utf8() {
+    use std::os::unix::ffi::OsStrExt;
+    let dir = std::env::temp_dir().join(format!("verif-unix-{}", std::process::id()));
+    let _ = std::fs::remove_dir_all(&dir);
+    std::fs::create_dir_all(&dir).unwrap();
+    let server_path = dir.join("server.sock");
+    let mut listener = crate::stream::unix::UnixListener::bind(&server_path).unwrap();
+
+    // client socket bound to a path that is not valid UTF-8 (perfectly legal on unix)
+    let mut raw = dir.as_os_str().as_bytes().to_vec();
+    raw.extend_from_slice(b"/client-\xff\xfe.sock");
+    let client_path = std::path::PathBuf::from(std::ffi::OsStr::from_bytes(&raw));
+    let sock = socket2::Socket::new(socket2::Domain::UNIX, socket2::Type::STREAM, None).unwrap();
+    sock.bind(&socket2::SockAddr::unix(&client_path).unwrap()).unwrap();
+    sock.connect(&socket2::SockAddr::unix(&server_path).unwrap()).unwrap();
+
+    let r = tokio::time::timeout(
+        std::time::Duration::from_secs(5),
+        poll_fn(|cx| Pin::new(&mut listener).poll_accept(cx)),
+    )
+    .await
+    .expect("accept completes");
+    let _ = std::fs::remove_dir_all(&dir);
+    assert!(
+        r.is_ok(),
+        "poll_accept reported {:?} for an intact listener: the peer's socket path is not UTF-8",
+        r.as_ref().err()
+    );
+}
+
+/// acc.next_* [C09]: the `Stream` view of the listener: a cancelled connect yields no error item, the healthy
+/// client is served, and the stream ends (`None`) only when every client handle is gone.
+#[tokio::test]
+async fn acc_next_no_err() {
+    use futures_util::StreamExt;
+    let (client, mut incoming) = duplex::pair();
+    {
+        let mut fut = Box::pin(client.connect(1024));
+        assert!(futures_util::poll!(&mut fut).is_pending());
+        drop(fut);
+    }
+    let c2 = client.clone();
+    let good = tokio::spawn(async move { c2.connect(1024).await });
+    let item = tokio::time::timeout(std::time::Duration::from_secs(5), incoming.next()).await.expect("item");
+    assert!(matches!(item, Some(Ok(_))), "expected the healthy client's stream, got an error item or the end");
+    assert!(good.await.unwrap().is_ok());
+    drop(client);
+    let end = tokio::time::timeout(std::time::Duration::from_secs(5), incoming.next()).await.expect("stream ends");
+    assert!(end.is_none(), "all clients gone: the stream ends");
+}
+
+/// A scripted acceptor for the TLS wrapper: counts polls, never performs I/O.
+#[cfg(feature = "tls")]
+struct ScriptAccept(Vec<Poll<Result<duplex::DuplexStream, std::io::Error>>>, usize);
+#[cfg(feature = "tls")]
+impl crate::server::conn::Accept for ScriptAccept {
+    type Conn = duplex::DuplexStream;
+    type Error = std::io::Error;
+    fn poll_accept(mut self: Pin<&mut Self>, _cx: &mut Context<'_>) -> Poll<Result<Self::Conn, Self::Error>> {
+        self.1 += 1;
+        if self.0.is_empty() { Poll::Pending } else { self.0.remove(0) }
+    }
+}
+
+/// tls.err_is_listener / tls.lazy_handshake / tls.polls_once [C09]: the TLS acceptor hands a connection on at
+/// once (no handshake I/O inside the accept loop: the peer never wrote a byte), passes the listener's own error
+/// through, and is pending iff the listener is.
+#[cfg(feature = "tls")]
+#[test]
+fn tls_accept_is_lazy() {
+    use crate::server::conn::tls::TlsAcceptor;
+    let _ = rustls::crypto::ring::default_provider().install_default();
+    let config = std::sync::Arc::new(
+        rustls::ServerConfig::builder()
+            .with_no_client_auth()
+            .with_cert_resolver(std::sync::Arc::new(rustls::server::ResolvesServerCertUsingSni::new())),
+    );
+    let (server_side, _silent_client) = duplex::DuplexStream::new(64);
+    let script = ScriptAccept(
+        vec![
+            Poll::Pending,
+            Poll::Ready(Ok(server_side)),
+            Poll::Ready(Err(std::io::Error::new(std::io::ErrorKind::Other, "listener gone"))),
+        ],
+        0,
+    );
+    let mut acc = TlsAcceptor::new(config, script);
+    let waker = futures_util::task::noop_waker();
+    let mut cx = Context::from_waker(&waker);
+    assert!(Pin::new(&mut acc).poll_accept(&mut cx).is_pending());
+    // the client has not sent (and never sends) a ClientHello: the connection is returned all the same
+    match Pin::new(&mut acc).poll_accept(&mut cx) {
+        Poll::Ready(Ok(_tls_stream)) => {}
+        other => panic!("expected the wrapped connection at once, got {:?}", other.map(|r| r.map(|_| ()))),
+    }
+    match Pin::new(&mut acc).poll_accept(&mut cx) {
+        Poll::Ready(Err(e)) => assert_eq!(e.to_string(), "listener gone"),
+        other => panic!("expected the listener's error, got {:?}", other.map(|r| r.map(|_| ()))),
+    }
+}
+
+/// acc.pending_registered [C09]: a dead request followed - later - by a live one: after skipping the dead
+/// request the acceptor must either look at the queue again or be woken by the next send; it must not stall.
+#[tokio::test]
+async fn acc_dead_request_then_live() {
+    let (client, mut incoming) = duplex::pair();
+    {
+        let mut fut = Box::pin(client.connect(64));
+        assert!(futures_util::poll!(&mut fut).is_pending());
+        drop(fut);
+    }
+    let server = tokio::spawn(async move { poll_fn(|cx| Pin::new(&mut incoming).poll_accept(cx)).await.map(|_| ()) });
+    // let the acceptor consume the dead request and go to sleep
+    for _ in 0..5 { tokio::task::yield_now().await; }
+    let c = tokio::time::timeout(std::time::Duration::from_secs(5), client.connect(64)).await;
+    assert!(c.is_ok() && c.unwrap().is_ok(), "the live client was never accepted: the acceptor stalled");
+    assert!(tokio::time::timeout(std::time::Duration::from_secs(5), server).await.expect("acceptor finished").unwrap().is_ok());
 }
